@@ -200,6 +200,23 @@ func (s String) with(at int, char rune) Set {
 	}
 	// TODO: Support adding holes and doubling up chars, removing the need to
 	// call newGenericSetFromSet here.
+	if pos := at - s.offset; pos < 0 || pos >= len(s.s) || s.s[pos] < 0 {
+		// The target index is vacant (a hole or beyond either end): strings can hold holes.
+		lo, hi := s.offset, s.offset+len(s.s)
+		if at < lo {
+			lo = at
+		}
+		if at >= hi {
+			hi = at + 1
+		}
+		runes := make([]rune, hi-lo)
+		for i := range runes {
+			runes[i] = -1
+		}
+		copy(runes[s.offset-lo:], s.s)
+		runes[at-lo] = char
+		return String{s: runes, offset: lo, holes: len(runes) - s.Count() - 1}
+	}
 	return newGenericSetFromSet(s).With(NewStringCharTuple(at, char))
 }
 
